@@ -13,73 +13,6 @@ use dvb_gse_rust::label::Label;
 
 pub const Z: usize = 4;
 
-#[derive(Copy, Clone)]
-pub struct BufG {
-    pub ptr: *const u8,
-    pub len: usize,
-    pub bytes: [u8; 8],
-}
-
-pub const NOBUF: BufG = BufG { ptr: core::ptr::null(), len: 0, bytes: [0; 8] };
-
-#[derive(Copy, Clone)]
-pub struct CtxG {
-    pub label: Label,
-    pub ptype: u16,
-    pub frag_id: u8,
-    pub total_len: u16,
-    pub pdu_len: u16,
-    pub reuse: bool,
-    pub n_ext: usize,
-}
-
-pub struct Ghost {
-    pub slot: [Option<(CtxG, BufG)>; 3],
-    pub free: [BufG; 4],
-    pub nfree: usize,
-}
-
-pub fn mk_buf(n: usize) -> (Box<[u8]>, BufG) {
-    // n is concrete at every call site
-    let bytes: [u8; 8] = kani::any();
-    let b: Box<[u8]> = if n == 3 {
-        Box::new([bytes[0], bytes[1], bytes[2]])
-    } else if n == 4 {
-        Box::new([bytes[0], bytes[1], bytes[2], bytes[3]])
-    } else {
-        Box::new([bytes[0], bytes[1], bytes[2], bytes[3], bytes[4], bytes[5]])
-    };
-    let g = BufG { ptr: b.as_ptr(), len: b.len(), bytes };
-    (b, g)
-}
-
-pub fn ctx_ghost(c: &DecapContext) -> CtxG {
-    CtxG {
-        label: c.label,
-        ptype: c.protocol_type,
-        frag_id: c.frag_id,
-        total_len: c.total_len,
-        pdu_len: c.pdu_len,
-        reuse: c.from_label_reuse,
-        n_ext: c.extensions_header.len(),
-    }
-}
-
-pub fn ctx_matches(c: &DecapContext, g: &CtxG) -> bool {
-    label_eq(&c.label, &g.label)
-        && c.protocol_type == g.ptype
-        && c.frag_id == g.frag_id
-        && c.total_len == g.total_len
-        && c.pdu_len == g.pdu_len
-        && c.from_label_reuse == g.reuse
-        && c.extensions_header.len() == g.n_ext
-}
-
-pub fn buf_matches(b: &[u8], g: &BufG) -> bool {
-    let j = any_len(7);
-    b.as_ptr() == g.ptr && b.len() == g.len && (j >= g.len || b[j] == g.bytes[j])
-}
-
 /// Build a memory of type M in shape `sh` (storage size Z) through the public trait.
 pub fn build<M: GseDecapMemory>(sh: &Shape) -> (M, Ghost) {
     let mut m = M::new(sh.s, Z, 0, 0);
